@@ -50,7 +50,7 @@ def check_case(ctx, case):
     s = S.from_json(case["spec"])
     mode = case.get("mode", "tree")
     names = sorted(S.variables(s))
-    if not C.varfree_in_scope(s):
+    if not C.tree_in_scope(s, [S.point_from_json(pj) for pj in case["points"]]):
         ctx.count("inputs_out_of_scope")
         return
     ctx.count("cases")
